@@ -32,5 +32,28 @@ PROPS = {
         'explanation': 'max_chunk_data verified to return the largest data length whose chunk fits; lemma_cc_progress (>= 1 byte with >= 6 bytes of room, >= min(len, advertised max)) and lemma_cc_monotone (more input never less progress) over the exact consumed-count postcondition of BodyWriter::write; termination of the chunk loop by decreases.',
         'assumptions': [VERUS, USIZE, WRITER_MODEL, FMT],
     },
+    'C06': {
+        'modules': ['util', 'chunk', 'body'],
+        'explanation': 'BodyReader::for_response / header_defined extracted verbatim and verified against the spec function `framing` written from the property (RFC 9112 6.3) for every method, every u16 status, both versions and every header situation; body_mode reports the framing.',
+        'assumptions': [VERUS, HTTP, STR, 'te_declares_chunked(value) (the split/trim/any pipeline over the Transfer-Encoding value, rule N9) is uninterpreted', 'the header lookup closure is a deterministic function of the name'],
+        'bounded': ['Transfer-Encoding list expression: native exhaustive run over the C06 menu (replay/tests)'],
+    },
+    'C07': {
+        'modules': ['util', 'chunk', 'body'],
+        'explanation': 'all of chunk.rs and BodyReader::read_chunked verified: each state handler step-exact against the chunked grammar token it consumes (size line incl. extension and hex value, data copy = min of three, CRLF, trailer line, final CRLF); parse_input / read_chunked: counts in bounds, produced bytes are a subsequence in order of the consumed ones, one call of parse_input (and one read with boundary stopping) produces ONE contiguous piece of the input (never data of two chunks), an ended decoder consumes nothing, termination. NOT proved: the composition lemma over a whole coding witness (total output == payload, total consumed == |coding|); see DESIGN.md.',
+        'assumptions': [VERUS, USIZE, STR, 'Iterator::position / take (rule N9 stubs slice_position, slice_take_position)'],
+        'bounded': ['whole-coding composition (payload equality, exact consumption, ended-iff) : native small-scope grammar run'],
+    },
+    'C08': {
+        'modules': ['util', 'chunk', 'body'],
+        'explanation': 'read_limit: exactly min(input, space, remaining) bytes copied unchanged, countdown exact, rest of the output untouched; read_unlimit: min(input, space) passthrough; is_ended <=> remaining == 0 / never for close-delimited.',
+        'assumptions': [VERUS, USIZE],
+    },
+    'C20': {
+        'modules': ['parser'],
+        'explanation': 'try_parse_response / try_parse_partial_response / try_parse_request verified to be exact functions of the (assumed, uninterpreted) httparse outcome: Complete(n) -> (n, message with exactly the parsed version, status/method and fields), Partial -> None, TooManyHeaders -> HttpParseTooManyHeaders, no panic (builder errors mapped); the partial parser reports only the completely received fields up to the first empty value and never fails before the status line is complete.',
+        'assumptions': [VERUS, HTTP, HTTPARSE, 'well-formed-head axioms on httparse (axiom_wellformed_response*) are exercised only by the bounded conformance run'],
+        'bounded': ['httparse conformance on generated heads x every prefix'],
+    },
 }
 NOT_APPLICABLE = {}
